@@ -38,6 +38,12 @@ int redirect_parent(int *child, REPROC_STREAM stream)
     return errno == EBADF ? -EPIPE : -errno;
   }
 
+  // `fileno` keeps returning the descriptor number after the descriptor itself
+  // has been closed so check whether it is still open.
+  if (fcntl(r, F_GETFD) < 0) {
+    return -EPIPE;
+  }
+
   *child = r; // `r` contains the duplicated file descriptor.
 
   return 0;
